@@ -60,6 +60,14 @@ func (s *Stmt) norm() {
 
 var refused int
 
+// fuel: every block body starts with VhTick(); after fuelLimit block calls in one program
+// every further call fails, so runaway (mutual) recursion ends quickly. Such runs are
+// marked (note "fuel") and not compared.
+const fuelLimit = 200
+
+var ticks int
+var exhausted bool
+
 type val [2]any // ["I", n] | ["B", 0] | ["E", code] | ["N", 0] | ["O", len] | ["X", 0] (something else)
 
 func main() {
@@ -67,6 +75,16 @@ func main() {
 		evalFile(os.Args[2])
 		return
 	}
+	core.Global.TestDef("VhTick", &core.SuBuiltinRaw{
+		Fn: func(th *core.Thread, as *core.ArgSpec, args []core.Value) core.Value {
+			ticks++
+			if ticks > fuelLimit {
+				exhausted = true
+				panic("vh out of fuel")
+			}
+			return nil
+		},
+		BuiltinParams: core.BuiltinParams{ParamSpec: core.ParamSpecAt}})
 	out := os.Args[1]
 	progs := os.Args[2]
 	nrandom, _ := strconv.Atoi(os.Args[3])
@@ -143,6 +161,7 @@ func renderStmt(sb *strings.Builder, s *Stmt, ind int) {
 		} else {
 			fmt.Fprintf(sb, "%s%s = {|%s|\n", tab, s.V, s.A)
 		}
+		fmt.Fprintf(sb, "%s\tVhTick()\n", tab)
 		renderBody(sb, s.B, ind+1)
 		if s.R == "" {
 			fmt.Fprintf(sb, "%s\t0\n", tab)
@@ -263,6 +282,7 @@ func runProgram(tr *vh.Trace, body []Stmt, origin string) {
 			"main", val{"C", 0}, "obs", []val{}, "post", [][]any{}, "note", cerr))
 		return
 	}
+	ticks, exhausted = 0, false
 	v, exc := call(th, fn)
 	main := val{"E", exc}
 	obs := []val{}
@@ -319,7 +339,14 @@ func runProgram(tr *vh.Trace, body []Stmt, origin string) {
 		}
 	}
 	tr.Emit(vh.E("Prog", "origin", origin, "body", body, "src", src,
-		"main", main, "obs", obs, "post", post, "note", ""))
+		"main", main, "obs", obs, "post", post, "note", fuelNote()))
+}
+
+func fuelNote() string {
+	if exhausted {
+		return "fuel"
+	}
+	return ""
 }
 
 // ---------------------------------------------------------------- random programs
@@ -401,9 +428,11 @@ func (g *gen) program() []Stmt {
 		if g.rnd.Intn(10) == 0 {
 			vs = append(vs, g.pick(intNames))
 		}
-		if len(vs) > 0 {
-			body = append(body, Stmt{K: "obs", Vs: vs})
-		}
+		body = append(body, Stmt{K: "obs", Vs: vs})
+	} else {
+		// every program ends with an explicit return (the value of falling off the end of a
+		// function is not part of the model)
+		body = append(body, Stmt{K: "obs", Vs: []string{}})
 	}
 	return body
 }
